@@ -35,6 +35,7 @@ func runRoundTrips(t *testing.T, r *ev.Rec, prefix string, codecs []codec, gobFo
 
 	if r.WantLayer("cells", true) {
 		cells, unc := vocab.SingleCells(gobForm)
+		cells = append(cells, vocab.AnonymousCells(gobForm)...)
 		for _, u := range unc {
 			r.Uncovered("UNCOVERED field " + u)
 		}
@@ -61,14 +62,19 @@ func runRoundTrips(t *testing.T, r *ev.Rec, prefix string, codecs []codec, gobFo
 	if r.WantLayer("everything", true) {
 		for _, c := range codecs {
 			for _, st := range vocab.StructTypes {
-				id := c.name + " " + st.Name()
-				if !r.WantCell(id) {
-					continue
+				// one every-field-set value per vocabulary type name of this Go type (the reader and writer tables switch on the name)
+				for _, tn := range vocab.NamesFor(st.Name()) {
+					id := c.name + " " + st.Name() + "[" + string(tn) + "]"
+					if !r.WantCell(id) {
+						continue
+					}
+					x := vocab.Everything(st, gobForm)
+					sv, _ := vocab.StructOf(x)
+					sv.FieldByName("Type").SetString(string(tn))
+					ds, _ := roundTrip(c, x, prefix, st.Name()+".*")
+					r.Case(id+vocab.Dump(x), true, "everything")
+					reportAll(r, "everything", id, ds, map[string]interface{}{"entry": c.name, "value": vocab.Dump(x)})
 				}
-				x := vocab.Everything(st, gobForm)
-				ds, _ := roundTrip(c, x, prefix, st.Name()+".*")
-				r.Case(id+vocab.Dump(x), true, "everything")
-				reportAll(r, "everything", id, ds, map[string]interface{}{"entry": c.name, "value": vocab.Dump(x)})
 			}
 		}
 		r.Cells(len(codecs)*len(vocab.StructTypes), len(codecs)*len(vocab.StructTypes))
